@@ -259,9 +259,15 @@ fn unit(r: virtio_drivers::Result<()>) {
         Err(e) => dev(json!({"e":"Ret","ok":false,"err":format!("{:?}", e)})),
     }
 }
+thread_local! {
+    /// scenarios in which the device never answers with an error (every other one): "in the
+    /// absence of device errors" clauses are then in force from construction to drop
+    static NO_ERRS: std::cell::Cell<bool> = const { std::cell::Cell::new(false) };
+}
+
 /// Script the response of the k-th request of the next call (0-based), if an error is wanted.
 fn script(rng: &mut SmallRng, p_err: f64, n: usize, codes: &[u32]) -> Option<(usize, u32)> {
-    if rng.gen_bool(p_err) {
+    if rng.gen_bool(p_err) && !NO_ERRS.with(|n| n.get()) {
         let at = rng.gen_range(0..n);
         let code = codes[rng.gen_range(0..codes.len())];
         with_engine(|e| {
@@ -587,6 +593,7 @@ fn drive_sound<T: Transport>(t: T, p: &CmdParams, rng: &mut SmallRng) -> String 
 pub fn run(p: &CmdParams, sc: &str) -> (Vec<Vec<String>>, Value) {
     // every third scenario runs on a platform that maps buffers in place (no bounce copies)
     INPLACE_MODE.with(|m| m.set(p.seed % 3 == 0 && !adv_active()));
+    NO_ERRS.with(|n| n.set(p.seed % 2 == 1));
     reset_world();
     INPLACE_MODE.with(|m| m.set(false));
     let mut rng = SmallRng::seed_from_u64(p.seed);
